@@ -70,7 +70,7 @@ func init() {
 					R.bad("C12.i", kRPCFS+":split", "the difference is split into squares", "no Split call", P.Pos(fn.Pos()))
 					return
 				}
-				q := &MustPass{P: P, NoInterproc: true, Match: func(a Atom) bool {
+				q := &MustPass{P: P, Match: func(a Atom) bool {
 					g, ok := P.guardOf(a)
 					return ok && g.Kind == "big" && siteOf(g.SubjV) == siteOf(split.Call.Args[0]) && g.Rel == ">=" && g.Bound.equal(tconst(0))
 				}}
@@ -78,7 +78,7 @@ func init() {
 				R.decide("C12.i", kRPCFS+":nonnegative", "the value handed to the splitter was tested >= 0 (else ErrFalseStatement)", r.Holds, r.Path, P.Pos(split.Pos()))
 				// the term of the difference: both signs
 				be := P.bigEval(fn)
-				ts := be.At[split]
+				ts := be.at(split)
 				got := ""
 				if len(ts) > 0 {
 					got = ts[0].String()
@@ -143,13 +143,13 @@ func carriedCheckedRule(P *Program, R *Report) {
 		r := q.ForAllBody(fn, outer, acc, true)
 		R.decide(rule, kProofDCC+":"+name, what, r.Holds, r.Path, P.Pos(fn.Pos()))
 	}
-	chk("hidden", "every range-proof index has a hidden response in this proof (else error)", &MustPass{NoInterproc: true, Match: func(a Atom) bool {
+	chk("hidden", "every range-proof index has a hidden response in this proof (else error)", &MustPass{Match: func(a Atom) bool {
 		return desc(a.V) == "<gabi.ProofD>.AResponses["+idx+"]" && a.Want == NonNil
 	}})
-	chk("inner-loop-entered", "for every index the loop over its proofs is executed", &MustPass{NoInterproc: true, Instr: func(f *ssa.Function, i ssa.Instruction) bool {
+	chk("inner-loop-entered", "for every index the loop over its proofs is executed", &MustPass{Instr: func(f *ssa.Function, i ssa.Instruction) bool {
 		return i.Block() == inner.Header
 	}})
-	chk("structures-match", "the number of extracted structures equals the number of proofs under the index", &MustPass{NoInterproc: true, Match: func(a Atom) bool {
+	chk("structures-match", "the number of extracted structures equals the number of proofs under the index", &MustPass{Match: func(a Atom) bool {
 		g, ok := parseGuard(a, nil)
 		x, y := "len("+pdRP+"["+idx+"])", "len(<gabi.ProofD>.cachedRangeStructures["+idx+"])"
 		return ok && g.Kind == "int" && g.Rel == "==" && ((g.Subject == x && g.BoundA.String() == y) || (g.Subject == y && g.BoundA.String() == x))
@@ -157,13 +157,13 @@ func carriedCheckedRule(P *Program, R *Report) {
 	// (3) per proof
 	proof := pdRP + "[" + idx + "][#j]"
 	str := "<gabi.ProofD>.cachedRangeStructures[" + idx + "][#j]"
-	q1 := &MustPass{P: P, NoInterproc: true, Match: func(a Atom) bool {
+	q1 := &MustPass{P: P, Match: func(a Atom) bool {
 		c, ok := callAtom(a, True, kRPVerify)
 		return ok && desc(c.Call.Args[0]) == str && desc(c.Call.Args[1]) == pkD && desc(c.Call.Args[2]) == proof
 	}}
 	r1 := q1.ForAllBody(fn, inner, acc, false)
 	R.decide(rule, kProofDCC+":each-verified", "for every proof: VerifyProofStructure(pk, proof) of its own structure returned true", r1.Holds, r1.Path, P.Pos(fn.Pos()))
-	q2 := &MustPass{P: P, NoInterproc: true, Instr: func(f *ssa.Function, i ssa.Instruction) bool {
+	q2 := &MustPass{P: P, Instr: func(f *ssa.Function, i ssa.Instruction) bool {
 		c, ok := i.(*ssa.Call)
 		if !ok || !isCallTo(c, "builtin:append") {
 			return false
@@ -190,8 +190,7 @@ func carriedCheckedRule(P *Program, R *Report) {
 			}
 		}
 		R.decide(rule, kReconRP+":filed", "and cached under that same index", okStore, "", P.Pos(rf.Pos()))
-		mp(P, R, rule, kReconRP+":extract-error", "a nil error is returned only if every extraction succeeded", rf, AcceptNilErr(0), &MustPass{NoInterproc: true,
-			Exempt: func(a Atom) bool { return strings.HasPrefix(desc(a.V), "rangeok(") && a.Want == False },
+		mp(P, R, rule, kReconRP+":extract-error", "a nil error is returned only if every extraction succeeded", rf, AcceptNilErr(0), &MustPass{Exempt: func(a Atom) bool { return strings.HasPrefix(desc(a.V), "rangeok(") && a.Want == False },
 			Match: func(a Atom) bool {
 				c, idx := callAndResult(a.V)
 				return c != nil && calleeName(c) == kExtract && idx == 1 && a.Want == Nil
@@ -234,7 +233,7 @@ func bindingRule(P *Program, R *Report) {
 		return fresh && t.equal(want)
 	}
 	for _, c := range []*ssa.Call{ver, cfp} {
-		r := (&MustPass{P: P, NoInterproc: true, Instr: assign}).MustReach(fn, c)
+		r := (&MustPass{P: P, Instr: assign}).MustReach(fn, c)
 		R.decide(rule, kProofDCC+":MResponse-before:"+calleeName(c), "MResponse of the proof is a fresh copy of AResponses[its index] before this call", r.Holds, r.Path, P.Pos(c.Pos()))
 	}
 	// the structure's base name uses the same index
@@ -313,7 +312,8 @@ func extractLimitsRuleFor(P *Program, R *Report, rule string) {
 		if !ok || g.Kind != "int" || g.Rel != "==" {
 			return false
 		}
-		if at.Fn != nil && FuncKey(at.Fn) == kNewParams && g.Subject == "arg#1" && (g.BoundA.String() == "1" || g.BoundA.String() == "-1") {
+		// (inside a helper the parameter is described as the caller's argument: the proof's Sign)
+		if (g.Subject == "arg#1" && at.Fn != nil && FuncKey(at.Fn) == kNewParams || g.Subject == rpP+".Sign") && (g.BoundA.String() == "1" || g.BoundA.String() == "-1") {
 			return true
 		}
 		return at.Fn != nil && FuncKey(at.Fn) == kExtract && g.Subject == rpP+".Sign" && (g.BoundA.String() == "1" || g.BoundA.String() == "-1")
@@ -321,13 +321,13 @@ func extractLimitsRuleFor(P *Program, R *Report, rule string) {
 	if np := mustFunc(P, R, rule, kNewParams); np != nil {
 		// the factor is used as a signed 64-bit exponent and multiplier (int64(a)): it must fit, or the relation
 		// that is proven is about a - 2^64 while the statement that is reported is about a
-		mp(P, R, rule, kNewParams+":factor-fits-int64", "a structure is built only for a factor that survives the conversion to int64 (a <= MaxInt64)", np, AcceptNilErr(1), &MustPass{NoInterproc: true, Match: intG(func(g Guard) bool {
+		mp(P, R, rule, kNewParams+":factor-fits-int64", "a structure is built only for a factor that survives the conversion to int64 (a <= MaxInt64)", np, AcceptNilErr(1), &MustPass{Match: intG(func(g Guard) bool {
 			if g.Kind != "int" || g.Subject != "arg#2" || !g.BoundA.isConst() {
 				return false
 			}
 			return (g.Rel == "<=" && g.BoundA.C == 9223372036854775807) || (g.Rel == "<" && g.BoundA.C == -9223372036854775808) // `< 1<<63` prints as the wrapped constant
 		})})
-		mp(P, R, rule, kNewParams+":squares<=4", "a structure is built only for at most 4 squares", np, AcceptNilErr(1), &MustPass{NoInterproc: true, Match: intG(func(g Guard) bool {
+		mp(P, R, rule, kNewParams+":squares<=4", "a structure is built only for at most 4 squares", np, AcceptNilErr(1), &MustPass{Match: intG(func(g Guard) bool {
 			return g.Kind == "int" && g.Subject == "arg#5" && g.Rel == "<=" && g.BoundA.String() == "4"
 		})})
 	}
@@ -345,7 +345,7 @@ func rangeSizesRule(P *Program, R *Report, rule string) {
 	}
 	acc := AcceptTrue(0)
 	one := func(name, subj, bound string) {
-		mp(P, R, rule, kRPVerify+":"+name, "accept => "+name+" has at most "+bound+" bits", fn, acc, &MustPass{NoInterproc: true, Match: func(a Atom) bool {
+		mp(P, R, rule, kRPVerify+":"+name, "accept => "+name+" has at most "+bound+" bits", fn, acc, &MustPass{Match: func(a Atom) bool {
 			g, ok := parseGuard(a, nil)
 			if !ok || g.Kind != "bitlen" || g.Subject != subj {
 				return false
@@ -358,7 +358,7 @@ func rangeSizesRule(P *Program, R *Report, rule string) {
 	one("MResponse", rpP+".MResponse", "Lm+Lh+Lstatzk+1")
 	each := func(name, elem, bound string) {
 		fa := &ForAll{P: P, Spec: ForAllSpec{Coll: is(rpS + ".cRep"), Body: func(f *ssa.Function, l *Loop) *MustPass {
-			return &MustPass{NoInterproc: true, Match: func(a Atom) bool {
+			return &MustPass{Match: func(a Atom) bool {
 				g, ok := parseGuard(a, nil)
 				if !ok || g.Kind != "bitlen" || g.Subject != elem {
 					return false
@@ -524,10 +524,10 @@ func provesStatementRule(P *Program, R *Report) {
 			return ok && g.Kind == "int" && g.Rel == "==" && ((g.Subject == x && g.BoundA.String() == y) || (g.Subject == y && g.BoundA.String() == x))
 		}
 	}
-	mp(P, R, rule, kProves+":sign-valid", "true => the queried sign is 1 or -1", fn, acc, &MustPass{NoInterproc: true, Match: anyOf(intEq("arg#1", "1"), intEq("arg#1", "-1"))})
-	mp(P, R, rule, kProves+":sign-equal", "true => the proof's Sign equals the queried sign", fn, acc, &MustPass{NoInterproc: true, Match: intEq(rpP+".Sign", "arg#1")})
+	mp(P, R, rule, kProves+":sign-valid", "true => the queried sign is 1 or -1", fn, acc, &MustPass{Match: anyOf(intEq("arg#1", "1"), intEq("arg#1", "-1"))})
+	mp(P, R, rule, kProves+":sign-equal", "true => the proof's Sign equals the queried sign", fn, acc, &MustPass{Match: intEq(rpP+".Sign", "arg#1")})
 	// factor: p.A == factor' where factor' is arg#2 or 4*arg#2 depending on len(Cs)==3
-	mp(P, R, rule, kProves+":factor-equal", "true => the proof's A equals the (rescaled) queried factor", fn, acc, &MustPass{NoInterproc: true, Match: func(a Atom) bool {
+	mp(P, R, rule, kProves+":factor-equal", "true => the proof's A equals the (rescaled) queried factor", fn, acc, &MustPass{Match: func(a Atom) bool {
 		bo, ok := a.V.(*ssa.BinOp)
 		if !ok || bo.Op != token.EQL || a.Want != True {
 			return false
@@ -543,7 +543,7 @@ func provesStatementRule(P *Program, R *Report) {
 		return len(lv) == 2 && lv["arg#2"] && lv["(arg#2*4)"]
 	}})
 	// K vs bound'
-	mp(P, R, rule, kProves+":bound", "true => K equals the (rescaled) bound, or compares to it in the direction of the sign", fn, acc, &MustPass{NoInterproc: true, Match: func(a Atom) bool {
+	mp(P, R, rule, kProves+":bound", "true => K equals the (rescaled) bound, or compares to it in the direction of the sign", fn, acc, &MustPass{Match: func(a Atom) bool {
 		bo, ok := a.V.(*ssa.BinOp)
 		if !ok || bo.Op != token.EQL || a.Want != True {
 			return false
@@ -584,8 +584,7 @@ func rescalingRule(P *Program, R *Report, rule string) {
 			}
 		}
 		R.decide(rule, kNewPS+":factor", "three squares: factor' = 4*factor", okF, "", P.Pos(fn.Pos()))
-		mp(P, R, rule, kNewPS+":factor-one", "three squares are offered only for factor 1", fn, AcceptNilErr(1), &MustPass{NoInterproc: true,
-			Exempt: func(a Atom) bool {
+		mp(P, R, rule, kNewPS+":factor-one", "three squares are offered only for factor 1", fn, AcceptNilErr(1), &MustPass{Exempt: func(a Atom) bool {
 				g, ok := parseGuard(a, nil)
 				return ok && g.Kind == "int" && strings.Contains(g.Subject, "SquareCount") && g.Rel == "!=" && g.BoundA.String() == "3"
 			},
@@ -614,7 +613,7 @@ func rescalingRule(P *Program, R *Report, rule string) {
 		if mul == nil {
 			R.bad(rule, kProves+":factor", "three squares: the queried factor is rescaled to 4*factor", "no factor*4", P.Pos(fn.Pos()))
 		} else {
-			r := (&MustPass{P: P, NoInterproc: true, Match: func(a Atom) bool {
+			r := (&MustPass{P: P, Match: func(a Atom) bool {
 				g, ok := parseGuard(a, nil)
 				if !ok || g.Kind != "int" || g.Subject != "arg#2" {
 					return false
